@@ -7,7 +7,8 @@ Import-free (the driver links against it).  Bytes are `List UInt8`.
   * the decoder works on a cursor and the buffer is advanced only when a value (or a
     malformed prefix) was read — "need more data" leaves the buffer untouched;
   * a bulk length below -1 is a protocol error;
-  * the array pre-allocation is capped by the bytes actually present;
+  * arrays are no longer pre-allocated from the announced length (the vector grows with the
+    elements actually received);
   * arrays nest at most `MAX_DEPTH` deep;
   * `encode` writes simple strings / errors with CR and LF replaced by a space.
 `decodeLegacy`, `encodeLegacy`, `feedLegacy` model the pinned tree (header consumed before
@@ -334,18 +335,24 @@ structure ResL where
   depth : Nat
 deriving DecidableEq, Repr
 
-/-- the element loop of `decode_array` -/
-def elems (dec : Bytes → Res) : Nat → Bytes → ResL
+/-- what one `elements.push(val)` may cost when the vector was not reserved up front: the
+vector doubles (first 4 slots), so all its (re)allocations together stay below
+`4 * ELEM_SIZE` bytes per element pushed -/
+def PUSH_COST : Nat := 4 * ELEM_SIZE
+
+/-- the element loop of `decode_array`; `push` is the allocation charged per element pushed
+(`PUSH_COST` after the repair, 0 on the pinned tree where the vector was reserved up front) -/
+def elems (dec : Bytes → Res) (push : Nat) : Nat → Bytes → ResL
   | 0, buf => ⟨.vals [], buf, 0, 0⟩
   | n + 1, buf =>
     let r := dec buf
     match r.out with
     | .val v =>
-      let r2 := elems dec n r.rest
+      let r2 := elems dec push n r.rest
       ⟨match r2.out with
         | .vals vs => .vals (v :: vs)
         | o => o,
-       r2.rest, r.meter + r2.meter, max r.depth r2.depth⟩
+       r2.rest, r.meter + push + r2.meter, max r.depth r2.depth⟩
     | .none => ⟨.incomplete, r.rest, r.meter, r.depth⟩
     | .incomplete => ⟨.incomplete, r.rest, r.meter, r.depth⟩
     | .err => ⟨.err, r.rest, r.meter, r.depth⟩
@@ -430,8 +437,8 @@ def decodeD : Nat → Bytes → Res
           match parseUsize line.tail with
           | none => ⟨.err, rest, lineCost line, 0⟩
           | some n =>
-            let r := elems (decodeD d') n rest
-            let m := lineCost line + ELEM_SIZE * min n (rest.length / 3) + r.meter
+            let r := elems (decodeD d') PUSH_COST n rest
+            let m := lineCost line + r.meter
             match r.out with
             | .vals vs => ⟨.val (.array vs), r.rest, m, r.depth + 1⟩
             | .incomplete => ⟨.incomplete, r.rest, m, r.depth + 1⟩
@@ -547,7 +554,13 @@ def specOneFrame (reply : Bytes) : Bool :=
   | _ => false
 
 /-- C21: allocation allowed for a buffer of `n` bytes, and the recursion bound -/
-def allocBound (n : Nat) : Nat := 72 * n + 64
+def allocBound (n : Nat) : Nat := 96 * n + 256
+
+def outcomeClass : Outcome → Nat
+  | .val _ => 0
+  | .more => 1
+  | .err => 2
+  | .panic => 3
 
 /-- C21: outcome class `0 = value, 1 = need more, 2 = protocol error, 3 = panic/abort`,
 measured peak allocation and the input length -/
@@ -594,7 +607,7 @@ def decodeL : Nat → Bytes → Res
         | some n =>
           if ELEM_SIZE * n ≥ 2 ^ 63 then ⟨.panic, rest, lineCost line, 0⟩   -- capacity overflow
           else
-            let r := elems (decodeL f) n rest
+            let r := elems (decodeL f) 0 n rest
             let m := lineCost line + ELEM_SIZE * n + r.meter
             match r.out with
             | .vals vs => ⟨.val (.array vs), r.rest, m, r.depth + 1⟩
